@@ -132,3 +132,124 @@ Print Assumptions C05_repair_max_any_prefix.
 Print Assumptions C05_example_present.
 Print Assumptions C05_example_intact.
 Print Assumptions C05_example_values.
+
+
+(* ====================================================================================
+   END TO END for encrypted archives without compression (ComposeRepair.v; see the end of
+   C02.v for the setting: encryption writer fed any pieces, cut of the WIRE, fail-safe
+   decryptor in either mode, repair). *)
+From MLA Require Import EncLayer EncAuthTrunc EncWriter Run ComposeRdOnly ComposeRepair.
+
+(* the undamaged wire, both modes: every file completely recovered *)
+Theorem C05_repair_encrypted_intact_complete :
+  forall FNMAX CACHE : N, FNMAX < 2 ^ 64 -> 0 < CACHE ->
+  forall TS TC TA TE : N,
+    TS <> TC /\ TS <> TA /\ TS <> TE /\ TC <> TA /\ TC <> TE /\ TA <> TE ->
+  forall H : bytes -> bytes, (forall x, len (H x) = 32) ->
+  forall CHUNK TAG CIPHERBUF : N, 0 < CHUNK -> 0 < TAG ->
+  forall (ks : N -> N -> N) (tagc : N -> bytes -> bytes), (forall i c, len (tagc i c) = TAG) ->
+  forall (bl : list block) (trailer : bytes),
+    wf_blocks FNMAX H bl ->
+    In BEnd bl \/ trailer ++ junk CHUNK ks tagc (body TS TC TA TE bl ++ trailer) = [] ->
+  forall pieces : list bytes, concat pieces = body TS TC TA TE bl ++ trailer ->
+  forall (fuelw : nat) (s : ewstate),
+    ew_archive CHUNK CIPHERBUF ks tagc fuelw pieces = Ok s ->
+    len (ew_out s) / (CHUNK + TAG) + 2 <= 2 ^ 32 ->
+  forall (unauth : bool) (fuel : nat),
+    In BEnd bl -> (N.to_nat (len (body TS TC TA TE bl ++ trailer) + TAG) < fuel)%nat ->
+    exists es b,
+      fs_open CHUNK TAG ks (Cursor (ew_out s)) 0 = (es, Ok b) /\
+    exists (out : wstate) (obl : list block),
+      repair FNMAX CACHE TS TC TA TE H (FsEnc CHUNK TAG ks tagc unauth (Cursor (ew_out s))) fuel es w_init
+        = Ok (FEndOfData, [], out) /\
+      good_output FNMAX TS TC TA TE H out obl /\
+      Forall2 same (files_of bl) (files_of obl) /\
+      (forall f, In f (files_of bl) -> f_ended f = true).
+Proof. exact repair_encrypted_intact_complete. Qed.
+
+(* every cut of the wire: for every file, exactly its content bytes lying in what the
+   decryptor delivers (`fs_output`: auth_out / unauth_out of EncAuthFs.v, C04) are recovered *)
+Theorem C05_repair_encrypted_max :
+  forall FNMAX CACHE : N, FNMAX < 2 ^ 64 -> 0 < CACHE ->
+  forall TS TC TA TE : N,
+    TS <> TC /\ TS <> TA /\ TS <> TE /\ TC <> TA /\ TC <> TE /\ TA <> TE ->
+  forall H : bytes -> bytes, (forall x, len (H x) = 32) ->
+  forall CHUNK TAG CIPHERBUF : N, 0 < CHUNK -> 0 < TAG ->
+  forall (ks : N -> N -> N) (tagc : N -> bytes -> bytes), (forall i c, len (tagc i c) = TAG) ->
+  forall (bl : list block) (trailer : bytes),
+    wf_blocks FNMAX H bl ->
+    In BEnd bl \/ trailer ++ junk CHUNK ks tagc (body TS TC TA TE bl ++ trailer) = [] ->
+  forall pieces : list bytes, concat pieces = body TS TC TA TE bl ++ trailer ->
+  forall (fuelw : nat) (s : ewstate),
+    ew_archive CHUNK CIPHERBUF ks tagc fuelw pieces = Ok s ->
+    len (ew_out s) / (CHUNK + TAG) + 2 <= 2 ^ 32 ->
+  forall (n : N) (unauth : bool) (fuel : nat),
+    (N.to_nat (len (body TS TC TA TE bl ++ trailer) + TAG) < fuel)%nat ->
+    exists es b,
+      fs_open CHUNK TAG ks (Cursor (takeN n (ew_out s))) 0 = (es, Ok b) /\
+    exists (status : fstatus) (unfinished : list bytes) (out : wstate) (obl : list block),
+      repair FNMAX CACHE TS TC TA TE H (FsEnc CHUNK TAG ks tagc unauth (Cursor (takeN n (ew_out s))))
+             fuel es w_init = Ok (status, unfinished, out) /\
+      good_output FNMAX TS TC TA TE H out obl /\
+      (forall f, In f (files_of bl) ->
+         content_of (files_of obl) (f_name f) =
+         present (f_id f) bl (len (fs_output CHUNK TAG ks tagc unauth (takeN n (ew_out s))))).
+Proof. exact repair_encrypted_max. Qed.
+
+(* a longer cut never yields less, when the second run is in the unauthenticated mode (the
+   first in either mode).  For two AUTHENTICATED runs this is not a theorem of the abstract
+   model (see ComposeRepair.v: an accidental tag match inside a cut chunk); the general form
+   `repair_encrypted_monotone_gen` has the comparison of the delivered lengths as hypothesis. *)
+Theorem C05_repair_encrypted_monotone_partial :
+  forall FNMAX CACHE : N, FNMAX < 2 ^ 64 -> 0 < CACHE ->
+  forall TS TC TA TE : N,
+    TS <> TC /\ TS <> TA /\ TS <> TE /\ TC <> TA /\ TC <> TE /\ TA <> TE ->
+  forall H : bytes -> bytes, (forall x, len (H x) = 32) ->
+  forall CHUNK TAG CIPHERBUF : N, 0 < CHUNK -> 0 < TAG ->
+  forall (ks : N -> N -> N) (tagc : N -> bytes -> bytes), (forall i c, len (tagc i c) = TAG) ->
+  forall (bl : list block) (trailer : bytes),
+    wf_blocks FNMAX H bl ->
+    In BEnd bl \/ trailer ++ junk CHUNK ks tagc (body TS TC TA TE bl ++ trailer) = [] ->
+  forall pieces : list bytes, concat pieces = body TS TC TA TE bl ++ trailer ->
+  forall (fuelw : nat) (s : ewstate),
+    ew_archive CHUNK CIPHERBUF ks tagc fuelw pieces = Ok s ->
+    len (ew_out s) / (CHUNK + TAG) + 2 <= 2 ^ 32 ->
+  forall (n m : N) (u1 : bool) (fuel1 fuel2 : nat),
+    n <= m ->
+    (N.to_nat (len (body TS TC TA TE bl ++ trailer) + TAG) < fuel1)%nat ->
+    (N.to_nat (len (body TS TC TA TE bl ++ trailer) + TAG) < fuel2)%nat ->
+    exists es1 b1 es2 b2,
+      fs_open CHUNK TAG ks (Cursor (takeN n (ew_out s))) 0 = (es1, Ok b1) /\
+      fs_open CHUNK TAG ks (Cursor (takeN m (ew_out s))) 0 = (es2, Ok b2) /\
+    exists st1 un1 out1 obl1 st2 un2 out2 obl2,
+      repair FNMAX CACHE TS TC TA TE H (FsEnc CHUNK TAG ks tagc u1 (Cursor (takeN n (ew_out s))))
+             fuel1 es1 w_init = Ok (st1, un1, out1) /\
+      good_output FNMAX TS TC TA TE H out1 obl1 /\
+      repair FNMAX CACHE TS TC TA TE H (FsEnc CHUNK TAG ks tagc true (Cursor (takeN m (ew_out s))))
+             fuel2 es2 w_init = Ok (st2, un2, out2) /\
+      good_output FNMAX TS TC TA TE H out2 obl2 /\
+      forall name, prefix (content_of (files_of obl1) name) (content_of (files_of obl2) name).
+Proof. exact repair_encrypted_monotone. Qed.
+
+(* non-vacuity: the encrypted example archive of C02.v, uncut, both modes *)
+Example C05_example_encrypted_intact : forall unauth : bool,
+  exists es b out obl,
+    fs_open 32 4 toy_ks (Cursor (ew_out C02.ex_ew)) 0 = (es, Ok b) /\
+    repair 48 4 0 1 254 255 ex_H (FsEnc 32 4 toy_ks (toy_tag 4) unauth (Cursor (ew_out C02.ex_ew)))
+           300 es w_init = Ok (FEndOfData, [], out) /\
+    Forall2 same (files_of ex_bl) (files_of obl).
+Proof.
+  intros unauth.
+  destruct (C05_repair_encrypted_intact_complete 48 4 ltac:(lia) ltac:(lia) 0 1 254 255
+              ltac:(repeat split; discriminate) ex_H ex_H_len 32 4 8 ltac:(lia) ltac:(lia)
+              toy_ks (toy_tag 4) (len_toy_tag 4) ex_bl ex_trailer C02_example_wf
+              (or_introl ex_bl_end) C02.ex_pieces C02.ex_pieces_ok 200%nat C02.ex_ew C02.ex_ew_ok
+              ltac:(vm_compute; discriminate) unauth 300%nat ex_bl_end ltac:(vm_compute; lia))
+    as (es & b & Ho & out & obl & Hr & _ & Hs & _).
+  exists es, b, out, obl. auto.
+Qed.
+
+Print Assumptions C05_repair_encrypted_intact_complete.
+Print Assumptions C05_repair_encrypted_max.
+Print Assumptions C05_repair_encrypted_monotone_partial.
+Print Assumptions C05_example_encrypted_intact.
